@@ -1,7 +1,7 @@
 """C18 - bad configuration is an error, never a crash; accepted configuration runs."""
 import re
 
-from ..flow import must_pass, bool_branch, edge_dominates
+from ..flow import must_pass, bool_branch, edge_dominates, flow_forward
 from ..mir import op_base, short
 from . import panics, scopes, anchors
 
@@ -58,6 +58,49 @@ def run(chk, prog):
                                 "%s builds a tokio interval from a computed period: when the value it is derived from (a configured timeout; 0 is "
                                 "accepted and means 'disabled') makes it zero, interval() panics and the process aborts on the first connection" % f_.path)
     chk.floor("P-config", nper, 1, "tokio interval constructions")
+
+    # TRIM: a loop that shrinks a collection until its length satisfies a *configured* bound must be able to stop on the empty
+    # collection: `while list.len() > bound { pop }` does for every bound, `while list.len() >= bound { pop }` spins forever for
+    # bound 0 (pop on an empty list changes nothing) -- with the locks it holds.  History sizes of 0 are accepted configuration.
+    from .panics import _cmp_facts, resolve_place
+    ntrim = 0
+    for k in sorted(load | net):
+        f_ = prog.fns.get(k)
+        if f_ is None or f_.crate != "redproxy_rs":
+            continue
+        lens = [c for c in f_.calls if re.search(r"(LinkedList|VecDeque|Vec|HashMap|BTreeMap)::<[^>]*>::len$", c.path or "") and len(c.dest) == 1]
+        if not lens:
+            continue
+        pops = [c for c in f_.calls if re.search(r"::(pop_back|pop_front|pop|remove|swap_remove|truncate)$", c.path or "")]
+        if not pops:
+            continue
+        for (sb, tb, cop, a, b) in _cmp_facts(f_):
+            la, lb = op_base(a), op_base(b)
+            for ln in lens:
+                ld = ln.dest[0]
+                derived = set(flow_forward(f_, [ld], [])[0]) | {ld}
+                side = "L" if la in derived else ("R" if lb in derived else None)
+                if side is None:
+                    continue
+                other = b if side == "L" else a
+                if f_.int_of(other) is not None:
+                    continue                                # a constant bound is the programmer's business
+                body = f_.reach_from([tb], avoid=[ln.bb])
+                root = resolve_place(f_, op_base(ln.args[0]))[0] if ln.args and op_base(ln.args[0]) is not None else None
+                inloop = [p_ for p_ in pops if p_.bb in body and ln.bb in f_.reach_from([p_.bb]) and
+                          (resolve_place(f_, op_base(p_.args[0]))[0] if p_.args and op_base(p_.args[0]) is not None else None) == root]
+                if not inloop or ln.bb not in f_.reach_from([tb]):
+                    continue
+                ntrim += 1
+                strict = (side == "L" and cop == "Gt") or (side == "R" and cop == "Lt")
+                chk.instance("TRIM", inloop[0].where(), "%s: the trimming loop stops on an empty collection for every bound (len > bound)" % f_.path, strict,
+                             "continues while len %s bound" % ({"Gt": ">", "Ge": ">=", "Lt": "<", "Le": "<=", "Ne": "!=", "Eq": "=="}.get(cop, cop) if side == "L" else "(" + cop + " reversed)"))
+                if not strict:
+                    chk.finding("TRIM", f_.key, "trim-loop", "", inloop[0].where(),
+                                "%s shrinks a collection `while len >= bound` (or an equivalent non-strict test) against a configured bound: for bound 0 the "
+                                "loop pops an empty collection forever while holding the registry locks - an accepted configuration (history size 0) "
+                                "hangs the proxy as soon as the first connection ends" % f_.path)
+    chk.floor("TRIM", ntrim, 1 if "metrics" in prog.features or True else 0, "collection-trimming loops against a configured bound")
 
     # ---------------------------------------------------------------- (2) dispatch totality
     for pat in (r"^listeners::from_value$", r"^connectors::from_value$"):
